@@ -7,6 +7,9 @@ CONSTANTS
   MaxKills = 1
   AllowClose = TRUE
   FixPut = FALSE
+  MaxReplace = 1
+  DelDropsEmpty = FALSE
+  CloseOnlyWithRegions = FALSE
   FixDial = TRUE
 INVARIANTS OneCachedPerAddr DialsBounded ClosedIsTerminal
 CHECK_DEADLOCK FALSE
